@@ -219,7 +219,8 @@ var c20EvPaths = []string{"f0", "f1", "f2", "f3"}
 
 // VerifC20Loop: the real Watcher.Run (registration, first run of the task, polling loop, handler
 // goroutines) with nEvents events of symbolic type delivered through the fsnotify channel, then Close.
-func VerifC20Loop(nEvents, preempt int) {
+// mask: the subscribed set as bits over create/write/remove/rename/chmod; 99 = symbolic (all 32 subsets).
+func VerifC20Loop(nEvents, preempt, mask int) {
 	rt.ThreadMode(preempt)
 	rt.Unwind(400)
 	rt.Redirect("github.com/fsnotify/fsnotify.NewWatcher", c20NewFsWatcherCh)
@@ -236,7 +237,12 @@ func VerifC20Loop(nEvents, preempt int) {
 	sub := make([]bool, 5)
 	any := false
 	for i, n := range c20Names {
-		sub[i] = rt.Bool("subscribed." + n)
+		if mask == 99 {
+			sub[i] = rt.Bool("subscribed." + n)
+		} else {
+			sub[i] = mask&(1<<uint(i)) != 0
+			rt.Observe("subscribed."+n, sub[i])
+		}
 		if sub[i] {
 			events = append(events, n)
 			any = true
@@ -253,6 +259,8 @@ func VerifC20Loop(nEvents, preempt int) {
 		rt.Assert(rerr == nil, "C20.loop.Run-returns-no-error")
 		returned = true
 	})
+	time.Sleep(time.Second) // the watcher is up: paths registered, first run started, loop polling
+	before := rt.Digest(w)
 	tys := make([]int, nEvents)
 	for n := 0; n < nEvents; n++ {
 		tys[n] = rt.Choice("event."+c20D[n]+".type", 5)
@@ -262,6 +270,13 @@ func VerifC20Loop(nEvents, preempt int) {
 		time.Sleep(time.Second)
 	}
 	time.Sleep(time.Second) // the last handler gets going
+	// "keeps serving later events for as long as it runs", inductively: once the events are served the
+	// watcher is in the state it was in before them (its fields, and the fill level of the channels
+	// and maps they refer to), so the next event meets what the first one met
+	for tries := 0; tries < 6 && rt.Digest(w) != before; tries++ {
+		time.Sleep(time.Second)
+	}
+	rt.Assert(rt.Digest(w) == before, "C20.loop.served-events-leave-the-watcher-as-it-was")
 	w.Close()
 	rt.WaitThreads()
 	rt.Assert(returned, "C20.loop.Run-returns-after-Close")
